@@ -113,6 +113,19 @@ def hooks(ctx, w, D):
                 a[j], b[j] = -a[j], -b[j]
             ctx.probe('derived_pairs')
             exp = R.dominates(a, b)
+            # a long-lived epsilon comparator that was first used for a problem with fewer objectives (the default comparator
+            # of Archive() is shared by every archive of the process) must judge this pair like a fresh one
+            if 'eps' not in state:
+                from artap.operators import EpsilonDominance
+                state['eps'] = EpsilonDominance(epsilons=[0.1, 0.1])
+                monitors.ORIG['eps_compare'](state['eps'], [0.25, False], [0.5, False])
+            clear = all(x == y or abs(x - y) > 1e-9 * max(1.0, abs(x), abs(y)) for x, y in zip(a[:-1], b[:-1]))
+            if clear and not (list(a[:-1]) == list(b[:-1]) and R.mrank(a[-1]) == R.mrank(b[-1])):
+                ge = monitors.ORIG['eps_compare'](state['eps'], a, b)
+                if ge != exp:
+                    ctx.violation('eps_verdict', 'EpsilonDominance.compare', 'a comparator with epsilons [0.1, 0.1] that had been used '
+                                  'for a one-objective pair before returns %r for compare(%r, %r), textbook verdict %r' % (ge, a, b, exp))
+                    return
             got = cmp_(comp, a, b)
             if got != exp:
                 ctx.violation('pareto_verdict', 'ParetoDominance.compare', 'compare(%r, %r) = %r, textbook verdict %r (pair derived from a run pool)'
